@@ -18,14 +18,25 @@
                                 n-byte little-endian encoding of the constant, according to the facts the
                                 encoder established (not reduced and ≤ 0xffffffff; > 0xffffffff or marked by
                                 check_zero; reduced with its top byte set) — so `leVal` of the field is the
-                                constant.
+                                constant;
+   * `mov_r64_hex / mov_r64_neg_hex / mov_r64_dec / mov_r64_neg_dec` — THE FLAGSHIP, kernel-checked: for each of the 16
+                                64-bit registers, EVERY v < 2^64, every option byte (all three mov-immediate modes) and the four
+                                spellings (hexadecimal and decimal with leading zeros, negated), the TEXT `mov <reg>, <number>` goes
+                                through the whole per-line pipeline of the model (line filter, tokenizer, table lookups, encode_imm,
+                                encode_operands, assemble_asm) symbolically and comes out as one of three encodings
+                                (`B8+r imm32` narrowed, `REX.W C7 /0 simm32`, `REX.W B8+r imm64`: AL.Lemmas.MovImm.mov_bytes,
+                                AL.Lemmas.MovText.mov_line) which, read as the CPU reads them (AL.Spec.MovImm.movResult, a reader of
+                                its own written from the SDM; it agrees with the reference decoder on an instance of each shape),
+                                leave exactly v (resp. 2^64 − v) in that register.
 -/
 import AL.Properties.Sweep.C03
 import AL.Lemmas.Numerals
 import AL.Spec.X86Lemmas
 import AL.Lemmas.ImmField
+import AL.Lemmas.MovText
+import AL.Spec.MovImm
 namespace AL.Properties.C03
-open AL AL.Impl AL.Gen AL.Lemmas AL.Spec.X86
+open AL AL.Impl AL.Gen AL.Lemmas AL.Spec.X86 AL.Lemmas.MovImm AL.Lemmas.MovText
 
 /-- **decimal / hexadecimal / leading zeros / negation: the same number** -/
 theorem written_number_value (s : Instr) (n k : Nat) (hn : n < 2 ^ 64) :
@@ -60,5 +71,140 @@ theorem imm_field_qword (s : Instr) (hi : s.imm = true) (hb : s.kw.isByte = fals
     leVal (assembleImm s) = s.cons := by
   rw [assembleImm_qword s hi hb hr h64 hp hc]
   exact leVal_leBytes_lt 8 _ (by rw [p8]; omega)
+
+/-! ### the flagship: `mov r64, v` yields v, for EVERY v, in every mode — the whole per-line pipeline on symbolic text -/
+
+theorem movBytes_same (n v : Nat) (nar : Bool) : AL.Lemmas.MovImm.movBytes n v nar = AL.Spec.MovImm.movBytes n v nar := rfl
+
+theorem regs64_lt (n : Nat) (name : Str) (g : Nat) (hp : (n, name, g) ∈ regs64) : n < 16 := by
+  simp only [regs64, List.mem_cons, Prod.mk.injEq, List.not_mem_nil, or_false] at hp
+  omega
+
+theorem digitCh_num (d : Nat) (h : d < 16) : numCh (digitCh d) = true := by
+  have : d = 0 ∨ d = 1 ∨ d = 2 ∨ d = 3 ∨ d = 4 ∨ d = 5 ∨ d = 6 ∨ d = 7 ∨ d = 8 ∨ d = 9 ∨ d = 10 ∨ d = 11 ∨ d = 12 ∨ d = 13 ∨ d = 14 ∨ d = 15 := by omega
+  rcases this with rfl | rfl | rfl | rfl | rfl | rfl | rfl | rfl | rfl | rfl | rfl | rfl | rfl | rfl | rfl | rfl <;> decide
+
+theorem digitCh_head (d : Nat) (h : d < 10) : numHead (digitCh d) = true := by
+  have : d = 0 ∨ d = 1 ∨ d = 2 ∨ d = 3 ∨ d = 4 ∨ d = 5 ∨ d = 6 ∨ d = 7 ∨ d = 8 ∨ d = 9 := by omega
+  rcases this with rfl | rfl | rfl | rfl | rfl | rfl | rfl | rfl | rfl | rfl <;> decide
+
+theorem hexDigs_num (k n : Nat) (hn : n < 2 ^ 64) : ∀ c ∈ hexDigs k n, numCh c = true := by
+  intro c hc
+  unfold hexDigs at hc
+  rw [List.mem_map] at hc
+  obtain ⟨d, hd, rfl⟩ := hc
+  exact digitCh_num d ((hexDigs_props k n hn).1 d hd)
+
+theorem decDigs_num (k n : Nat) (hn : n < 2 ^ 64) : ∀ c ∈ decDigs k n, numCh c = true := by
+  intro c hc
+  unfold decDigs at hc
+  rw [List.mem_map] at hc
+  obtain ⟨d, hd, rfl⟩ := hc
+  exact digitCh_num d (Nat.lt_trans ((decDigs_props k n hn).1 d hd) (by decide))
+
+theorem digs_length (b : Nat) : ∀ (f n : Nat), (digs b f n).length ≤ f := by
+  intro f
+  induction f with
+  | zero => intro n; simp [digs]
+  | succ f ih =>
+    intro n
+    unfold digs
+    split
+    · simp
+    · simp only [List.length_append, List.length_singleton]
+      have := ih (n / b)
+      omega
+
+theorem hexDigs_length (k n : Nat) : (hexDigs k n).length ≤ k + 16 := by
+  unfold hexDigs
+  simp only [List.length_map, List.length_append, List.length_replicate]
+  have := digs_length 16 16 n
+  omega
+
+theorem decDigs_length (k n : Nat) : (decDigs k n).length ≤ k + 20 := by
+  unfold decDigs
+  simp only [List.length_map, List.length_append, List.length_replicate]
+  have := digs_length 10 20 n
+  omega
+
+/-- the statement for one spelling: the line assembles to code that leaves `value` in register n -/
+def MovYields (opt : Nat) (line : Str) (n value : Nat) : Prop :=
+  ∃ bs, (assembleLine opt line).1 = .ok (.code bs) ∧ AL.Spec.MovImm.movResult bs = some (n, value)
+
+theorem mov_yields_of_tok (n : Nat) (name : Str) (g : Nat) (hp : (n, name, g) ∈ regs64) (c : Nat) (t : Str) (v : Nat) (b : Bool)
+    (hc : numHead c = true) (hall : ∀ x ∈ c :: t, numCh x = true) (hlen : (c :: t).length ≤ 80)
+    (himm : ∀ s : Instr, immTok s (c :: t) = .ok { s with imm := true, narrowOk := b, cons := v })
+    (hv : v < 2 ^ 64) (opt : Nat) : MovYields opt (str! "mov " ++ name ++ 44 :: 32 :: c :: t) n v :=
+  ⟨_, mov_line n name g hp c t v b hc hall hlen himm hv opt, by
+    rw [movBytes_same]; exact AL.Spec.MovImm.movResult_movBytes n v _ (regs64_lt n name g hp) hv⟩
+
+/-- **`mov r64, v`, hexadecimal with any number k ≤ 60 of leading zeros**: for each of the 16 registers, EVERY v < 2^64 and
+    every option byte (all three mov-immediate modes, both SIB options) the line is accepted and the emitted code, read as
+    the CPU reads it, leaves exactly v in that register -/
+theorem mov_r64_hex (n : Nat) (name : Str) (g : Nat) (hp : (n, name, g) ∈ regs64) (k v : Nat) (hk : k ≤ 60) (hv : v < 2 ^ 64) (opt : Nat) :
+    MovYields opt (str! "mov " ++ name ++ str! ", 0x" ++ hexDigs k v) n v := by
+  have hall : ∀ x ∈ 48 :: 120 :: hexDigs k v, numCh x = true := by
+    intro x hx
+    simp only [List.mem_cons] at hx
+    rcases hx with rfl | rfl | hx
+    · decide
+    · decide
+    · exact hexDigs_num k v hv x hx
+  have hl := hexDigs_length k v
+  have := mov_yields_of_tok n name g hp 48 (120 :: hexDigs k v) v _ (by decide) hall (by simp only [List.length_cons]; omega)
+    (fun s => immTok_hex s k v hv) hv opt
+  simpa using this
+
+/-- negated hexadecimal: the register holds 2^64 − v (two's complement) -/
+theorem mov_r64_neg_hex (n : Nat) (name : Str) (g : Nat) (hp : (n, name, g) ∈ regs64) (k v : Nat) (hk : k ≤ 60) (hv : v < 2 ^ 64) (opt : Nat) :
+    MovYields opt (str! "mov " ++ name ++ str! ", -0x" ++ hexDigs k v) n ((2 ^ 64 - v) % 2 ^ 64) := by
+  have hall : ∀ x ∈ 45 :: 48 :: 120 :: hexDigs k v, numCh x = true := by
+    intro x hx
+    simp only [List.mem_cons] at hx
+    rcases hx with rfl | rfl | rfl | hx
+    · decide
+    · decide
+    · decide
+    · exact hexDigs_num k v hv x hx
+  have hl := hexDigs_length k v
+  have := mov_yields_of_tok n name g hp 45 (48 :: 120 :: hexDigs k v) ((2 ^ 64 - v) % 2 ^ 64) _ (by decide) hall
+    (by simp only [List.length_cons]; omega) (fun s => immTok_neg_hex s k v hv) (Nat.mod_lt _ (by decide)) opt
+  simpa using this
+
+/-- decimal, any number k ≤ 50 of leading zeros -/
+theorem mov_r64_dec (n : Nat) (name : Str) (g : Nat) (hp : (n, name, g) ∈ regs64) (k v : Nat) (hk : k ≤ 50) (hv : v < 2 ^ 64) (opt : Nat) :
+    MovYields opt (str! "mov " ++ name ++ str! ", " ++ decDigs k v) n v := by
+  obtain ⟨d, rest, hd, hds⟩ := decDigs_head k v hv
+  have hall : ∀ x ∈ digitCh d :: rest, numCh x = true := by rw [← hds]; exact decDigs_num k v hv
+  have hl := decDigs_length k v
+  have := mov_yields_of_tok n name g hp (digitCh d) rest v true (digitCh_head d hd) hall (by rw [← hds]; omega)
+    (fun s => by rw [← hds]; exact immTok_dec_pad s k v hv) hv opt
+  rw [← hds] at this
+  simpa using this
+
+/-- negated decimal -/
+theorem mov_r64_neg_dec (n : Nat) (name : Str) (g : Nat) (hp : (n, name, g) ∈ regs64) (k v : Nat) (hk : k ≤ 50) (hv : v < 2 ^ 64) (opt : Nat) :
+    MovYields opt (str! "mov " ++ name ++ str! ", -" ++ decDigs k v) n ((2 ^ 64 - v) % 2 ^ 64) := by
+  have hall : ∀ x ∈ 45 :: decDigs k v, numCh x = true := by
+    intro x hx
+    simp only [List.mem_cons] at hx
+    rcases hx with rfl | hx
+    · decide
+    · exact decDigs_num k v hv x hx
+  have hl := decDigs_length k v
+  have := mov_yields_of_tok n name g hp 45 (decDigs k v) ((2 ^ 64 - v) % 2 ^ 64) true (by decide) hall
+    (by simp only [List.length_cons]; omega) (fun s => immTok_neg_dec_pad s k v hv) (Nat.mod_lt _ (by decide)) opt
+  simpa using this
+
+/-- not vacuous, and the mini-reader agrees with the reference decoder on an instance of each shape -/
+example : (1, str! "rcx", 1025) ∈ regs64 := by decide
+example : hexDigs 0 0x1122334455667788 = str! "1122334455667788" := by decide
+example : decDigs 1 42 = str! "042" := by decide
+example : (decode [0x49, 0xc7, 0xc1, 0, 0, 0, 0x80]).map Dec.render = some "mov q9 i64:18446744071562067968 #7" ∧
+    AL.Spec.MovImm.movResult [0x49, 0xc7, 0xc1, 0, 0, 0, 0x80] = some (9, 18446744071562067968) := by decide +kernel
+example : (decode [0x41, 0xb9, 5, 0, 0, 0]).map Dec.render = some "mov d9 i32:5 #6" ∧
+    AL.Spec.MovImm.movResult [0x41, 0xb9, 5, 0, 0, 0] = some (9, 5) := by decide +kernel
+example : (decode [0x49, 0xbf, 1, 2, 3, 4, 5, 6, 7, 8]).map Dec.render = some "mov q15 i64:578437695752307201 #10" ∧
+    AL.Spec.MovImm.movResult [0x49, 0xbf, 1, 2, 3, 4, 5, 6, 7, 8] = some (15, 578437695752307201) := by decide +kernel
 
 end AL.Properties.C03
